@@ -171,3 +171,136 @@ Proof.
     intros c Hc. apply in_app_iff in Hc. destruct Hc as [Hc|Hc]; [now apply Hh|now apply Henv].
   - now rewrite (IH fuel keep P env rho).
 Qed.
+
+(** ** Executable side: is a second program a reach-preserving restriction of the first? *)
+
+Definition clause_eqb (c d : clause) : bool := ty_eqb (chead c) (chead d) && tys_eqb (cbody c) (cbody d).
+
+Lemma clause_eqb_eq : forall c d, clause_eqb c d = true <-> c = d.
+Proof.
+  intros [h b] [h' b']. unfold clause_eqb. cbn. rewrite andb_true_iff, ty_eqb_eq, tys_eqb_eq.
+  split; [intros [-> ->]; reflexivity|intro H; inversion H; auto].
+Qed.
+
+Definition memC (c : clause) (l : list clause) : bool := existsb (clause_eqb c) l.
+
+Definition is_some {A} (o : option A) : bool := match o with Some _ => true | None => false end.
+
+(** every clause of [cls] that matches an atom of [R] satisfies [keep] *)
+Definition keptb (keep : clause -> bool) (cls : list clause) (R : list ty) : bool :=
+  forallb (fun x => forallb (fun c => negb (is_some (mtch (chead c) x [])) || keep c) cls) R.
+
+Lemma keptb_spec : forall keep cls R, keptb keep cls R = true -> kept keep cls R.
+Proof.
+  intros keep cls R H x c Hx Hc Hm. unfold keptb in H. rewrite forallb_forall in H.
+  specialize (H x Hx). rewrite forallb_forall in H. specialize (H c Hc).
+  destruct (mtch (chead c) x []); [exact H|congruence].
+Qed.
+
+(** [Some true]: the clauses [cls2] (the printed program) contain every clause of [cls] that
+    the search for [a] can reach, so [eval_atom_restrict] applies to [keep := member of cls2]. *)
+Definition covers_reach (fuel : nat) (cls cls2 : list clause) (a : ty) : option bool :=
+  match reach (bodies cls) fuel [a] [] with
+  | None => None
+  | Some R => Some (keptb (fun c => memC c cls2) cls R)
+  end.
+
+Theorem covers_reach_sound : forall fuel cls cls2 co a,
+  covers_reach fuel cls cls2 a = Some true ->
+  eval_atom fuel (filter (fun c => memC c cls2) cls) co a = eval_atom fuel cls co a.
+Proof.
+  intros fuel cls cls2 co a H. unfold covers_reach in H.
+  destruct (reach (bodies cls) fuel [a] []) as [R|] eqn:ER; [|discriminate]. inversion H.
+  apply (eval_atom_restrict fuel cls co a _ R ER). now apply keptb_spec.
+Qed.
+
+(** ** The recorded-id model of [LoggingRustIrDatabase] *)
+
+Inductive item_id : Type := IdAdt (n : N) | IdTrait (n : N) | IdImpl (n : N).
+
+Definition item_id_eqb (a b : item_id) : bool :=
+  match a, b with
+  | IdAdt x, IdAdt y | IdTrait x, IdTrait y | IdImpl x, IdImpl y => N.eqb x y
+  | _, _ => false
+  end.
+
+(** The database callbacks the solvers use in the fragments of the property, with the data
+    that determines their result. *)
+Inductive callback : Type :=
+| CbTraitDatum (t : N)
+| CbAdtDatum (a : N)
+| CbImplDatum (i : N)
+| CbAssocTyData (t : N)                       (* the trait the associated type belongs to *)
+| CbAssocTyValue (i : N)                      (* the impl the value belongs to *)
+| CbImplsForTrait (t : N) (params : list item_id) (result : list N)
+| CbImplProvidedFor (t : N) (adt : list N) (deciding : list N)
+| CbProgramClausesForEnv (env : list item_id).
+
+(** What the result of a callback depends on: the items the printed program must define for
+    the callback to answer the same on it. *)
+Definition deps (cb : callback) : list item_id :=
+  match cb with
+  | CbTraitDatum t | CbAssocTyData t => [IdTrait t]
+  | CbAdtDatum a => [IdAdt a]
+  | CbImplDatum i | CbAssocTyValue i => [IdImpl i]
+  | CbImplsForTrait t ps res => IdTrait t :: ps ++ map IdImpl res
+  | CbImplProvidedFor t adt dec => IdTrait t :: map IdAdt adt ++ map IdImpl dec
+  | CbProgramClausesForEnv env => env
+  end.
+
+(** What the wrapper records; the two switches are the two repairs (F10, F11). *)
+Definition records (fix10 fix11 : bool) (cb : callback) : list item_id :=
+  match cb with
+  | CbTraitDatum t | CbAssocTyData t => [IdTrait t]
+  | CbAdtDatum a => [IdAdt a]
+  | CbImplDatum i | CbAssocTyValue i => [IdImpl i]
+  | CbImplsForTrait t ps res => IdTrait t :: (if fix11 then ps else []) ++ map IdImpl res
+  | CbImplProvidedFor t adt dec => IdTrait t :: map IdAdt adt ++ (if fix10 then map IdImpl dec else [])
+  | CbProgramClausesForEnv env => if fix11 then env else []
+  end.
+
+Definition recorded (fix10 fix11 : bool) (cbs : list callback) : list item_id :=
+  flat_map (records fix10 fix11) cbs.
+
+(** THEOREM (recorded_superset): with both repairs the recorded set contains everything any
+    sequence of callbacks depended on. *)
+Theorem recorded_superset : forall cbs, incl (flat_map deps cbs) (recorded true true cbs).
+Proof.
+  intros cbs x Hx. unfold recorded. apply in_flat_map in Hx. destruct Hx as [cb [Hcb Hx]].
+  apply in_flat_map. exists cb. split; [exact Hcb|]. destruct cb; exact Hx.
+Qed.
+
+(** On the unchanged tree the obligation fails for [impl_provided_for] (F10) and for the
+    parameters of [impls_for_trait] (F11). *)
+Theorem f10_refuted : exists cbs, ~ incl (flat_map deps cbs) (recorded false true cbs).
+Proof.
+  exists [CbImplProvidedFor 1000 [0%N] [7%N]]. intro H. specialize (H (IdImpl 7)). cbn in H.
+  destruct H as [H|[H|H]]; try discriminate; [auto|destruct H].
+Qed.
+
+Theorem f11_refuted : exists cbs, ~ incl (flat_map deps cbs) (recorded true false cbs).
+Proof.
+  exists [CbImplsForTrait 1000 [IdAdt 3] []]. intro H. specialize (H (IdAdt 3)). cbn in H.
+  destruct H as [H|H]; [auto|discriminate|destruct H].
+Qed.
+
+(** ** Non-vacuity (computation) *)
+
+Module RestrictExamples.
+  Import SemExamples.
+  (* an unrelated item: impl Co for W<S0> *)
+  Definition Pbig := mkProg (pclauses P ++ [mkClause (Co (W S0)) []]) (pcoind P).
+  Definition keep (c : clause) : bool := memC c (pclauses P).
+
+  Example restrict_atom :
+    covers_reach 50 (pclauses Pbig) (pclauses P) (Tr (W (W S0))) = Some true /\
+    eval_atom 50 (filter keep (pclauses Pbig)) (pcoind Pbig) (Tr (W (W S0))) = Some true /\
+    covers_reach 50 (pclauses Pbig) (pclauses P) (Co (W S0)) = Some false.
+  Proof. repeat split; vm_compute; reflexivity. Qed.
+
+  Example eval_restrict_nonvacuous :
+    let g := GForall (GIf [mkHyp 0 (mkClause (Tr (TVar 0)) [])] (GAtom (Tr (W (TVar 0))))) in
+    eval_goal 50 (restrictP (fun c => keep c || clause_eqb c (mkClause (Tr (TPh 0)) [])) Pbig) [] [] g = eval_goal 50 Pbig [] [] g /\
+    eval_goal 50 Pbig [] [] g = Some true.
+  Proof. split; vm_compute; reflexivity. Qed.
+End RestrictExamples.
